@@ -498,6 +498,8 @@ class Machine:
         self.fn_counts = {}
         self.arrays = []  # [base, end, z3 Array(BV64 -> BV8)] objects in array mode (symbolic indices)
         self.allocas = []  # (base, size) of live stack allocations
+        self.array_mode = False  # symbolic pointers: resolve to an object kept in array mode (True) or fork over the feasible addresses (False)
+        self.merge_tables = False  # table lookups through a symbolic index: merge into if-then-else (True) or fork per value (False)
         self.symbolic_alloc = {}  # allocation size -> name: heap blocks of that size start with arbitrary (symbolic) contents
         self.sym_alloc_seq = 0
 
@@ -647,11 +649,27 @@ class Machine:
         sp = z3.simplify(p)
         if z3.is_bv_value(sp):
             return sp.as_long(), None
-        # a feasible concrete value picks the candidate object
+        # the candidate object is chosen by the SMALLEST feasible address (binary search with the solver): the choice must not
+        # depend on which model the solver happens to return, or a re-execution of the same decision prefix would diverge
         if not eng._check():
             raise core.Inconclusive("path condition became unsatisfiable")
-        mdl = eng.solver.model()
-        a0 = mdl.eval(sp, model_completion=True).as_long()
+        cur = eng.solver.model().eval(sp, model_completion=True).as_long()
+        lo_ = None
+        for _ in range(12):
+            # descend through models: usually the pointer has a handful of feasible values
+            if not eng._check(z3.ULT(sp, z3.BitVecVal(cur, 64))):
+                lo_ = cur
+                break
+            cur = eng.solver.model().eval(sp, model_completion=True).as_long()
+        if lo_ is None:
+            lo_, hi_ = 0, cur
+            while lo_ < hi_:
+                mid = (lo_ + hi_) // 2
+                if eng._check(z3.ULE(sp, z3.BitVecVal(mid, 64))):
+                    hi_ = min(mid, eng.solver.model().eval(sp, model_completion=True).as_long())
+                else:
+                    lo_ = mid + 1
+        a0 = lo_
         ao = self._array_for(a0)
         found = (ao[0], ao[1] - ao[0]) if ao is not None else self.find_object(a0)
         if found is None:
@@ -667,6 +685,8 @@ class Machine:
     def _merge_candidates(self, p, n):
         """Small syntactic value set of the symbolic pointer p, every candidate inside flat (non array-mode)
         mapped memory -> (simplified pointer, sorted candidates); else None.  Sound: the set over-approximates."""
+        if not self.merge_tables:
+            return None
         sp = z3.simplify(p)
         if z3.is_bv_value(sp):
             return None
@@ -678,18 +698,25 @@ class Machine:
             for obj in self.arrays:
                 if obj[0] <= lo and hi + n <= obj[1]:
                     return sp, obj  # every candidate inside one array-mode object: index it directly
-        for a in vs:
+        keep = []
+        for a in sorted(vs):
             for obj in self.arrays:
                 if obj[0] <= a < obj[1]:
                     return None
             f = self.find_object(a)
             if f is None or a + n > f[0] + f[1]:
-                return None
-        return sp, sorted(vs)
+                # not a valid location: fine if the path condition excludes it (the value set over-approximates), else give up
+                if core.engine()._check(sp == z3.BitVecVal(a, 64)):
+                    return None
+                continue
+            keep.append(a)
+        if not keep:
+            return None
+        return sp, keep
 
     def load_sym(self, p, t):
         t0 = self.layout.resolve(t)
-        if t0[0] not in ("int", "ptr"):
+        if t0[0] not in ("int", "ptr") or not (self.array_mode or self.arrays):
             return self.load_typed(self.resolve_addr(p), t)
         bits = t0[1] if t0[0] == "int" else 64
         n = (bits + 7) // 8
@@ -716,7 +743,7 @@ class Machine:
 
     def store_sym(self, p, t, v):
         t0 = self.layout.resolve(t)
-        if t0[0] not in ("int", "ptr"):
+        if t0[0] not in ("int", "ptr") or not (self.array_mode or self.arrays):
             return self.store_typed(self.resolve_addr(p), t, v)
         bits = t0[1] if t0[0] == "int" else 64
         n = (bits + 7) // 8
